@@ -821,6 +821,26 @@ func ruleR19_3(r *Run) {
 			for _, c := range calls(fn) {
 				nm := methodNameOf(c)
 				if nm == "IsTombstone" || nm == "IsTombstoneKey" {
+					// comparing the tombstone state of two entries with each other treats deletions and
+					// data alike (it is what keeps a deletion from counting as a repeat of an empty value);
+					// a tombstone test that decides something on its own singles deletions out
+					symmetric := false
+					if cv, ok := c.(*ssa.Call); ok && cv.Referrers() != nil {
+						for _, ref := range *cv.Referrers() {
+							if bo, ok := ref.(*ssa.BinOp); ok && (bo.Op == token.EQL || bo.Op == token.NEQ) {
+								other := bo.X
+								if other == ssa.Value(cv) {
+									other = bo.Y
+								}
+								if oc, ok := other.(*ssa.Call); ok && (methodNameOf(oc) == "IsTombstone" || methodNameOf(oc) == "IsTombstoneKey") {
+									symmetric = true
+								}
+							}
+						}
+					}
+					if symmetric {
+						continue
+					}
 					r.violation(fname(fn)+":tombstone-test", "a copy engine tests keys for being tombstones: deletions recorded in the source would be treated differently from data (a dropped tombstone resurrects an ancestor's value in the copy)", w.pos(c.Pos()))
 				}
 			}
